@@ -83,7 +83,8 @@ Theorem C16_unwatched_silent : forall c pre steps id s,
   In (EUpdate id s) (r_events (Reporter.run c pre steps)) -> In id (c_watched c).
 Proof. exact unwatched_silent. Qed.
 
-(* A create/update of a watched object whose watch is running (and whose status
+(* OUTSIDE a watch gap ([in_gap st (o_gk id) = false], where the step [SMut m] is
+   [mutate c st m]): a create/update of a watched object whose watch is running (and whose status
    computation returns: [p_slow = false]) yields exactly one
    update event carrying that version's status (for a Namespace/CRD object it
    may be followed by the listing of watches the hook starts); otherwise none. *)
@@ -112,10 +113,52 @@ Theorem C16_last_event_final : forall c pre steps1 m steps2,
   r_stopped st1 = false -> allowed c (mut_id m) = true -> covered st1 (mut_id m) = true ->
   (forall id, m = MDelete id -> lookup (r_cluster st1) id <> None) ->
   (forall id p, m = MAdd id p \/ m = MUpdate id p -> p_slow p = false) ->
+  in_gap st1 (o_gk (mut_id m)) = false ->
   Forall (not_about (mut_id m)) steps2 ->
   let st := Reporter.run c pre (steps1 ++ SMut m :: steps2) in
   last_for (mut_id m) (r_events st) = Some (final_status st (mut_id m)).
 Proof. exact last_event_final. Qed.
+
+(* INSIDE a watch gap (the watch connection of the kind is broken; the informer
+   learns of changes only from the re-list after a 410 Expired) "one event per
+   mutation" does NOT hold and is not claimed: the mutation produces no event
+   when it happens ...                                                        *)
+Theorem C16_gap_mutation_deferred : forall c st m, in_gap st (o_gk (mut_id m)) = true ->
+  r_events (rstep_apply c st (SMut m)) = r_events st.
+Proof. exact gap_mutation_deferred. Qed.
+
+(* ... its first occurrence records the object's state at the break (what the
+   informer's store still holds) ...                                           *)
+Theorem C16_gap_mutation_recorded : forall c st m l0,
+  gap_of (r_gaps st) (o_gk (mut_id m)) = Some l0 ->
+  existsb (fun x => oid_eqb (fst x) (mut_id m)) l0 = false ->
+  (forall id, m = MDelete id -> lookup (r_cluster st) id <> None) ->
+  gap_of (r_gaps (rstep_apply c st (SMut m))) (o_gk (mut_id m)) =
+    Some (l0 ++ [(mut_id m, lookup (r_cluster st) (mut_id m))]).
+Proof. exact gap_first_mutation_recorded. Qed.
+
+(* ... and the re-list reports AT LEAST THE FINAL STATE: afterwards the last
+   event about every watched object of the kind that exists is the status of its
+   final version (also after delete + re-create: one update, as the real
+   informer delivers it), and about every object that was known at the break and
+   is gone it is NotFound (tombstone) -- and stays so while the object is not
+   mutated again.  Intermediate versions inside the gap are never reported;
+   unchanged objects are reported again (first resync period).  Stated for kinds
+   other than Namespace/CRD (no hook runs during the re-list); re-lists of the
+   Namespace/CRD kinds are covered by the correspondence only. *)
+Theorem C16_last_event_final_gap : forall c pre steps1 g l id steps2,
+  let st1 := Reporter.run c pre steps1 in
+  g <> GK_NS -> g <> GK_CRD ->
+  gap_of (r_gaps st1) g = Some l -> o_gk id = g ->
+  r_stopped st1 = false -> allowed c id = true -> covered st1 id = true ->
+  match lookup (r_cluster st1) id with
+  | Some p => p_slow p = false
+  | None => exists o, In (id, Some o) l
+  end ->
+  Forall (not_about id) steps2 ->
+  let st := Reporter.run c pre (steps1 ++ SRelist g :: steps2) in
+  last_for id (r_events st) = Some (final_status st id).
+Proof. exact last_event_final_gap. Qed.
 
 (* Namespaces and CRDs appearing or disappearing never produce an error event:
    without a failing informer there is none; start/stop bookkeeping is total
@@ -175,6 +218,27 @@ Example C16_benign_then_fatal :
   r_stopped (Reporter.run c [(ns1, cur); (sec, cur)] steps) = true.
 Proof. vm_compute. repeat split. Qed.
 
+(* a watch gap: delete, update, create and delete+re-create while the Secret
+   watch is broken; the re-list reports one event per changed object with its
+   final state (the unchanged object is reported again), nothing for the object
+   created and deleted inside the gap *)
+Example C16_gap_nonvacuous :
+  let a := mkOid 3 1 1 in let b := mkOid 3 1 2 in let d := mkOid 3 2 1 in let e := mkOid 3 2 2 in
+  let x := mkOid 3 1 3 in let u := mkOid 3 2 3 in
+  let c := mkConfig ScopeRoot [a; b; d; e; x; u] [0; 1; 3] in
+  let cur := mkPayload SCurrent None false in let prog := mkPayload SInProgress None false in
+  let fl := mkPayload SFailed None false in
+  let steps := [SSync; SBreak 3; SMut (MDelete a); SMut (MUpdate b prog); SMut (MUpdate b fl);
+                SMut (MAdd d cur); SMut (MDelete e); SMut (MAdd e prog);
+                SMut (MAdd x cur); SMut (MDelete x); SRelist 3; SMut (MUpdate b cur)] in
+  let st := Reporter.run c [(a, cur); (b, cur); (e, cur); (u, fl)] steps in
+  r_events st =
+    [EUpdate u SFailed; EUpdate e SCurrent; EUpdate b SCurrent; EUpdate a SCurrent; ESync;
+     EUpdate e SInProgress; EUpdate d SCurrent; EUpdate b SFailed; EUpdate u SFailed;
+     EUpdate a SNotFound; EUpdate b SCurrent] /\
+  in_gap (Reporter.run c [(a, cur)] [SSync; SBreak 3]) 3 = true /\ in_gap st 3 = false.
+Proof. vm_compute. repeat split. Qed.
+
 Print Assumptions C16_no_send_on_closed.
 Print Assumptions C16_close_condition.
 Print Assumptions C16_done_after_out.
@@ -191,3 +255,6 @@ Print Assumptions C16_ns_crd_no_error.
 Print Assumptions C16_bookkeeping_idempotent.
 Print Assumptions C16_at_most_one_error.
 Print Assumptions C16_at_most_one_sync.
+Print Assumptions C16_gap_mutation_deferred.
+Print Assumptions C16_gap_mutation_recorded.
+Print Assumptions C16_last_event_final_gap.
